@@ -36,8 +36,8 @@ def framesBehindHost (s : Spectator) : M Nat := do
 def trimEvents (s : Spectator) : Spectator :=
   { s with eventQueue := s.eventQueue.drop (s.eventQueue.length - MAX_EVENT_QUEUE_SIZE) }
 
-def handleEvent (s : Spectator) (ev : ProtoEvent) (addr : Nat) : M Spectator := do
-  let s ← match ev with
+def handleEventCore (s : Spectator) (ev : ProtoEvent) (addr : Nat) : M Spectator :=
+  match ev with
     | .synchronizing total count => pure { s with eventQueue := s.eventQueue ++ [.synchronizing addr total count] }
     | .networkInterrupted t => pure { s with eventQueue := s.eventQueue ++ [.networkInterrupted addr t] }
     | .networkResumed => pure { s with eventQueue := s.eventQueue ++ [.networkResumed addr] }
@@ -52,6 +52,9 @@ def handleEvent (s : Spectator) (ev : ProtoEvent) (addr : Nat) : M Spectator := 
       let host ← s.host.updateLocalFrameAdvantage inp.frame
       let s := { s with host }
       pure { s with hostConnectStatus := (List.range s.numPlayers).map fun i => rget s.host.peerConnectStatus i }
+
+def handleEvent (s : Spectator) (ev : ProtoEvent) (addr : Nat) : M Spectator := do
+  let s ← s.handleEventCore ev addr
   return s.trimEvents
 
 def pollRemoteClients (s : Spectator) (now : Nat) (received : List (Nat × Msg)) : M Spectator := do
